@@ -175,3 +175,20 @@ Proof. exact f32_large_magnitude_witness. Qed.
 Theorem C06_f32_between_the_decades_is_a_fixed_point :
   forallb (fun b => reproduced (json_f32 b ++ [10%N])) [1036831949; 1065353216; 1343554297; 1266679808]%N = true.
 Proof. exact f32_fixed_points_between. Qed.
+
+(* The round-trip clause for the pair JSON / MessagePack, for EVERY JSON input
+   (theories/JsonMsgpackAllProofs.v): whatever text JSON -> JSON translates, to an
+   output shorter than 4 GiB (the largest length MessagePack can declare),
+   JSON -> MessagePack -> JSON writes the same bytes, through either MessagePack
+   loop.  The values read from any text fit MessagePack's ranges because every
+   string and every collection in them is shorter than the text written for them. *)
+From XtModel Require Import JsonMsgpackAllProofs.
+
+Theorem C06_json_msgpack_json_for_every_input :
+  forall inp o : bytes,
+    json_to_json_f inp = Some o -> (N.of_nat (length o) < 4294967296)%N ->
+    let mp := flat_map enc_evs (fst (json_slice inp)) in
+    mm_ok (transcode_reader utf8_valid mp) = true /\ mm_ok (transcode_slice utf8_valid mp) = true /\
+    json_of_docs json_f64 (fst (transcode_reader utf8_valid mp)) = Some o /\
+    json_of_docs json_f64 (fst (transcode_slice utf8_valid mp)) = Some o.
+Proof. exact json_msgpack_json_every_input. Qed.
